@@ -87,6 +87,14 @@ SHAPES = [([2], [None, 0, -1]), ([5], [None, 0]), ([8], [None, -1]), ([2, 3], [N
 RED_FNS = ["min", "max", "argmin", "argmax", "sort", "argsort", "ptp"]
 
 
+def layout(rnd, shape):
+    """memory layout as a generated dimension: C-contiguous as built, transposed / swapped-axes
+    view, Fortran-ordered copy, strided slice, reversed view"""
+    if len(shape) == 1:
+        return rnd.choice(["C", "C", "rev", "strided"])
+    return rnd.choice(["C", "C", "T", "T", "swap", "F", "strided", "rev"])
+
+
 def gen_red(rnd, n):
     out = []
     for j in range(n):
@@ -110,8 +118,12 @@ def gen_red(rnd, n):
                 ii.append(count(rnd, big=big)), ff.append(fraction(rnd))
         ii = [x if abs(x) <= P52 else c for x in ii]
         fn = RED_FNS[j % len(RED_FNS)]
+        lay, ax = layout(rnd, shape), rnd.choice(axes)
+        if len(shape) > 1 and rnd.random() < 0.3:      # the flattened reduction of a non-contiguous array
+            lay, ax = rnd.choice(["T", "swap", "F", "T"]), None
         out.append({"ev": "red", "fn": fn, "form": "numpy" if rnd.random() < 0.45 else "method",
-                    "axis": rnd.choice(axes), "axpos": rnd.random() < 0.4,        # axis by position or by keyword
+                    "axis": ax, "axpos": rnd.random() < 0.4,        # axis by position or by keyword
+                    "layout": lay,
                     "ph": {"i": [hx(x) for x in ii], "f": [hx(x) for x in ff], "im": False, "shape": shape}})
     return out
 
@@ -160,7 +172,7 @@ def gen_hist(rnd, n):
                 steps.append({"do": "cmp", "op": rnd.choice(["lt", "le", "eq", "ne", "ge", "gt"]),
                               "form": rnd.choice([None, "ufunc", "ufunc-out", "ufunc-where"]),
                               "ot": {"kind": "phase", "i": [hx(c)], "f": [hx(f)], "im": False, "shape": None}})
-        out.append({"ev": "hist", "ph": ph, "steps": steps})
+        out.append({"ev": "hist", "ph": ph, "steps": steps, "layout": layout(rnd, shape)})
     return out
 
 
@@ -312,6 +324,7 @@ NEGS = (("Neg_PhaseText_parse.cfg", "ParseAgrees"), ("Neg_PhaseText_format.cfg",
 def _tlc(module, cfg, **kw):
     """tlc.run; a run that ends without any verdict (JVM killed from outside on a
     shared machine) is repeated once before it is reported as a machinery error"""
+    kw.setdefault("heap", "2g")
     r = tlc.run(module, cfg, **kw)
     if not r.ok and r.violation is None:
         r = tlc.run(module, cfg, **kw)
@@ -350,7 +363,7 @@ def run(chk):
         mc = ex.submit(model_checking, thorough)
         # 2. trace validation of the real class
         rcs = recipes(rnd, 16 if thorough else 1)
-        events, rejected = pd.validate(chk, rcs, "C15", procs=8)
+        events, rejected = pd.validate(chk, rcs, "C15", procs=7)
         file_mc(chk, mc.result())
     seen = set()
     for ev in events:
